@@ -73,6 +73,9 @@ mod k {
         // C15
         addmul = |l: LS, a: LS, b: LS| { let o = alg::addmul(&mut l, &a, &b); (l, o) };
         addmul_n = |l: LS, a: LS, b: LS| { alg::addmul_n(&mut l, &a, &b); l };
+        // both operands the SAME slice (squaring): an implementation may dispatch on pointer identity
+        addmul_alias = |l: LS, a: LS| { let o = alg::addmul(&mut l, &a, &a); (l, o) };
+        addmul_n_alias = |l: LS, a: LS| { alg::addmul_n(&mut l, &a, &a); l };
         mul_nx1 = |l: LS, w: W| { let c = alg::mul_nx1(&mut l, w); (l, c) };
         addmul_nx1 = |l: LS, a: LS, w: W| { let c = alg::addmul_nx1(&mut l, &a, w); (l, c) };
         submul_nx1 = |l: LS, a: LS, w: W| { let c = alg::submul_nx1(&mut l, &a, w); (l, c) };
@@ -86,6 +89,7 @@ mod k {
         shift_left_small = |l: LS, s: N| { let o = alg::shift_left_small(&mut l, s); (l, o) };
         shift_right_small = |l: LS, s: N| { let o = alg::shift_right_small(&mut l, s); (l, o) };
         cmp = |a: LS, b: LS| alg::cmp(&a, &b);
+        cmp_alias = |a: LS| alg::cmp(&a, &a);
     }
     pub fn dispatch(_bits: usize, op: Op, args: &[V]) -> V {
         call::<0, 0, 0>(op, args)
@@ -312,6 +316,19 @@ pub fn kmodel(_bits: usize, op: k::Op, args: &[V]) -> Expect {
             let short = args[1].limbs().len() + args[2].limbs().len() > n;
             is(V::T(vec![un(&(&t % &md), n), V::B(t >= md)])).nt(t >= md || short)
         }
+        addmul_alias => {
+            let (l, a) = (bigv(&args[0]), bigv(&args[1]));
+            let n = args[0].limbs().len();
+            let md = pow2(64 * n);
+            let t = &l + &a * &a;
+            is(V::T(vec![un(&(&t % &md), n), V::B(t >= md)])).nt(true)
+        }
+        addmul_n_alias => {
+            let (l, a) = (bigv(&args[0]), bigv(&args[1]));
+            let n = args[0].limbs().len();
+            let md = pow2(64 * n);
+            is(un(&((&l + &a * &a) % &md), n)).nt(true)
+        }
         addmul_n => {
             let (l, a, b) = (bigv(&args[0]), bigv(&args[1]), bigv(&args[2]));
             let n = args[0].limbs().len();
@@ -390,6 +407,7 @@ pub fn kmodel(_bits: usize, op: k::Op, args: &[V]) -> Expect {
                 is(V::T(vec![un(&(&l >> s), n), V::N(word(&out) as u128)])).nt(!out.is_zero())
             }
         }
+        cmp_alias => is(V::I(0)).nt(true),
         cmp => {
             let (a, b) = (bigv(&args[0]), bigv(&args[1]));
             is(V::I(a.cmp(&b) as i8 as i128)).nt(true)
@@ -1287,6 +1305,32 @@ fn c15(r: &Runner) {
             }
         }
     });
+    // the same slice as both operands: every (accumulator length, operand length) in 0..=12 x 0..=8, operands with every
+    // number of low / high zero limbs, accumulators empty / full / mixed
+    {
+        let mut cases: Vec<(usize, Limbs)> = vec![];
+        for la in 0..=8usize {
+            let mut ops: Vec<Limbs> = if la <= 4 { slices_upto(la, &[0, 1, 3, u64::MAX]).into_iter().filter(|v| v.len() == la).collect() } else { run_slices(la, &[0, 1, 3, u64::MAX]) };
+            ops.sort();
+            ops.dedup();
+            for a in ops {
+                for ll in 0..=12usize {
+                    cases.push((ll, a.clone()));
+                }
+            }
+        }
+        r.universe(&format!("addmul / addmul_n with both operands the same slice: {} (operand, accumulator length) pairs x 4 accumulator fills", cases.len()), 0, cases.len(), |i, l| {
+            let (ll, a) = &cases[i];
+            for acc in [vec![0u64; *ll], vec![u64::MAX; *ll], (1..=*ll as u64).collect::<Vec<u64>>(), { let mut v = vec![u64::MAX; *ll]; if *ll > 0 { v[0] = 1; } v }] {
+                l.states(1);
+                k::exec(l, 0, K::addmul_alias, &[vu(&acc), vu(a)]);
+                k::exec(l, 0, K::cmp_alias, &[vu(&acc)]);
+                if *ll == a.len() {
+                    k::exec(l, 0, K::addmul_n_alias, &[vu(&acc), vu(a)]);
+                }
+            }
+        });
+    }
     for n in 0..=6usize {
         let sn: Vec<Limbs> = if n <= 3 { slices_upto(n, al3).into_iter().filter(|v| v.len() == n).collect() } else { run_slices(n, &[0, 1, u64::MAX]) };
         r.universe(&format!("addmul_n n={n}: ({} slices)^2 x accumulators", sn.len()), 0, sn.len(), |i, l| {
